@@ -9,7 +9,7 @@ from ..defuse import is_sym, key, show, strip_norm
 from ..engine import Effect, own_walk, return_exprs
 from ..model import AnalysisInconclusive
 from . import labware_loop as LL
-from .common import attr_of_name, call_fname, concrete_devices, elem_parts, has_unknown, is_name, stmt_key
+from .common import attr_of_name, call_fname, concrete_devices, elem_parts, has_unknown, identity_eq_rule, is_name, stmt_key
 
 EXPLANATION = (
     "C11: ownership of the history lists (only __init__/log/condense_log touch them, condense_log is called only by "
@@ -34,6 +34,7 @@ def run(ctx) -> None:
         ctx.guard("C11.lvh-count", lvh_count, dev)
         ctx.guard("C11.lvh-note", lvh_note_once, dev)
     ctx.guard("C11.slice-zero", slice_zero)
+    ctx.guard("C11.same-labware", identity_eq_rule, "C11.same-labware")
     ctx.guard("C11.report", report)
     ctx.guard("C11.distribute", distribute)
     ctx.guard("C11.per-call", per_call_ops)
@@ -508,6 +509,14 @@ def report(ctx) -> None:
         if n.kind == "stmt" and isinstance(n.ast, ast.AugAssign):
             cond = fv.controlling(i, within=body)
             if not cond and len(state_names) == 2 and state_names[1] in _root_names(fv, n.ast.value, i):
+                hit = True
+        # the pieces may be collected in a list that is joined into the returned text after the loop
+        if n.kind == "stmt" and isinstance(n.ast, ast.Expr) and isinstance(n.ast.value, ast.Call) and isinstance(n.ast.value.func, ast.Attribute) and n.ast.value.func.attr == "append" \
+                and isinstance(n.ast.value.func.value, ast.Name) and len(n.ast.value.args) == 1:
+            acc = n.ast.value.func.value.id
+            joined = any(isinstance(x, ast.Call) and isinstance(x.func, ast.Attribute) and x.func.attr == "join" and len(x.args) == 1 and is_name(x.args[0], acc)
+                         for m in fv.cfg.nodes if m.kind == "stmt" and m.id not in body and fv.cfg.dominates(lp.id, m.id) for x in ast.walk(m.ast))
+            if joined and not fv.controlling(i, within=body) and len(state_names) == 2 and state_names[1] in _root_names(fv, n.ast.value.args[0], i):
                 hit = True
     ctx.rep.check(hit, rule, f"{f.qualname}/state", "every entry's state is printed unconditionally", "the state of an entry is not printed on every iteration", where=f.where(lp.ast))
 
